@@ -30,9 +30,14 @@ static void lzma_alone(hx_buf *out, const uint8_t *d, size_t n) {
     lzma_ret r = lzma_code(&st, LZMA_FINISH); if (r != LZMA_STREAM_END) abort();
     hb_put(out, tmp, cap - st.avail_out); lzma_end(&st); free(tmp);
 }
-enum { CE_GZIP, CE_XGZIP, CE_DEFLATE_RAW, CE_DEFLATE_ZLIB, CE_LZMA, CE_GZIP_DEFLATE, CE_DEFLATE_GZIP, CE__N };
-static const char *const CENAME[] = { "gzip", "x-gzip", "deflate", "deflate", "lzma", "gzip, deflate", "deflate, gzip" };
-static const char *const CEDESC[] = { "gzip", "x-gzip", "deflate (raw)", "deflate (zlib-wrapped)", "lzma", "gzip, deflate", "deflate, gzip" };
+/* the single codings first (request decompression handles one coding), then the two-layer lists, then gzip streams with optional header fields,
+ * announced as gzip and announced as deflate (the restart logic then has to recognise and skip the gzip header itself) */
+enum { CE_GZIP, CE_XGZIP, CE_DEFLATE_RAW, CE_DEFLATE_ZLIB, CE_LZMA, CE_GZIP_DEFLATE, CE_DEFLATE_GZIP,
+       CE_GZIP_FNAME, CE_GZIP_FEXTRA, CE_GZIP_FCOMMENT_HCRC, CE_GZIP_ALLFIELDS, CE_DEFLATE_ISGZIP, CE_DEFLATE_ISGZIP_FNAME, CE_DEFLATE_ISGZIP_FEXTRA, CE_DEFLATE_ISGZIP_FCOMMENT_HCRC, CE_DEFLATE_ISGZIP_ALLFIELDS, CE__N };
+#define CE_GZIP_DEFLATE_FIRST CE_GZIP_DEFLATE
+static const char *const CENAME[] = { "gzip", "x-gzip", "deflate", "deflate", "lzma", "gzip, deflate", "deflate, gzip", "gzip", "gzip", "gzip", "gzip", "deflate", "deflate", "deflate", "deflate", "deflate" };
+static const char *const CEDESC[] = { "gzip", "x-gzip", "deflate (raw)", "deflate (zlib-wrapped)", "lzma", "gzip, deflate", "deflate, gzip", "gzip with FNAME", "gzip with FEXTRA", "gzip with FCOMMENT+FHCRC",
+                                      "gzip with all header fields", "deflate announced, gzip sent", "deflate announced, gzip with FNAME sent", "deflate announced, gzip with FEXTRA sent", "deflate announced, gzip with FCOMMENT+FHCRC sent", "deflate announced, gzip with all header fields sent" };
 static void encode(int ce, const uint8_t *d, size_t n, hx_buf *out) {
     hx_buf t = { 0 };
     switch (ce) {
@@ -42,6 +47,11 @@ static void encode(int ce, const uint8_t *d, size_t n, hx_buf *out) {
         case CE_LZMA: lzma_alone(out, d, n); break;
         case CE_GZIP_DEFLATE: gx_deflate(&t, d, n, 0); gx_deflate(out, t.p, t.n, 1); break;      /* listed order = order applied */
         case CE_DEFLATE_GZIP: gx_deflate(&t, d, n, 1); gx_deflate(out, t.p, t.n, 0); break;
+        case CE_GZIP_FNAME: case CE_DEFLATE_ISGZIP_FNAME: gx_deflate(out, d, n, 3); break;
+        case CE_GZIP_FEXTRA: case CE_DEFLATE_ISGZIP_FEXTRA: gx_deflate(out, d, n, 4); break;
+        case CE_GZIP_FCOMMENT_HCRC: case CE_DEFLATE_ISGZIP_FCOMMENT_HCRC: gx_deflate(out, d, n, 5); break;
+        case CE_GZIP_ALLFIELDS: case CE_DEFLATE_ISGZIP_ALLFIELDS: gx_deflate(out, d, n, 6); break;
+        case CE_DEFLATE_ISGZIP: gx_deflate(out, d, n, 0); break;
     }
     hb_free(&t);
 }
@@ -206,7 +216,7 @@ static int worker(int argc, char **argv) {
     int bombs = atoi(hx_arg(argc, argv, "--bombs", "1"));
     make_payloads(big);
     for (int side = 1; side >= 0; side--) for (int ce = 0; ce < CE__N; ce++) for (int pi = 0; pi < NPAY; pi++) for (int fr = 0; fr < (side ? 3 : 2); fr++) {
-        if (side == 0 && ce >= CE_GZIP_DEFLATE) continue;       /* request decompression handles a single coding */
+        if (side == 0 && (ce == CE_GZIP_DEFLATE || ce == CE_DEFLATE_GZIP)) continue;       /* request decompression handles a single coding */
         fidelity_case(pi, ce, fr, side, 0, thorough, 0);
         /* a payload larger than a small configured bomb limit is still no bomb while the ratio is under 2048: nothing may be lost */
         if (PAY[pi].n > 10000 && fr == 0) { fidelity_case(pi, ce, fr, side, 0, thorough, 1000); fidelity_case(pi, ce, fr, side, 0, thorough, 10000); }
